@@ -163,6 +163,20 @@
 (declare-fun wfunc (BSeq) BSeq)
 (assert (forall ((f BSeq) (l BList) (n Int)) (! (=> (and (noAt f) (> (blen f) 0) (>= n 0)) (and (= (wcount (wire f l n)) n) (= (wfunc (wire f l n)) f))) :pattern ((wire f l n)))))
 (assert (forall ((f BSeq) (l BList) (n Int) (i Int)) (! (=> (and (noAt f) (> (blen f) 0) (<= 0 i) (< i n)) (= (warg (wire f l n) i) (lnth l i))) :pattern ((warg (wire f l n) i)))))
+; the priced payload bytes of a multi-transfer argument list (C16): item j occupies the positions 1+3j (token),
+; 2+3j (nonce) and 3+3j (payload or value); a fungible item has the one-byte nonce argument 00 and no payload.
+; msum l n = sum over the items 0 <= j < n of the payload lengths. msumStep is the unfolding, stated by the
+; contract that needs it (trigger); msum depends on the positions below 1+3n only.
+(declare-fun msum (BList Int) Int)
+(declare-fun mitem (BList Int) Int)
+(declare-fun msumStep (BList Int) Bool)
+(declare-fun wlist (BSeq) BList)
+(assert (forall ((l BList) (j Int)) (! (= (mitem l j) (ite (and (= (blen (lnth l (+ 2 (* 3 j)))) 1) (= (bat (lnth l (+ 2 (* 3 j))) 0) 0)) 0 (blen (lnth l (+ 3 (* 3 j)))))) :pattern ((mitem l j)))))
+(assert (forall ((l BList)) (! (= (msum l 0) 0) :pattern ((msum l 0)))))
+(assert (forall ((l BList) (n Int)) (! (>= (msum l n) 0) :pattern ((msum l n)))))
+(assert (forall ((l BList) (n Int)) (! (and (msumStep l n) (=> (>= n 0) (= (msum l (+ n 1)) (+ (msum l n) (mitem l n))))) :pattern ((msumStep l n)))))
+(assert (forall ((l1 BList) (l2 BList) (n Int)) (! (=> (forall ((i Int)) (=> (and (<= 0 i) (< i (+ 1 (* 3 n)))) (= (lnth l1 i) (lnth l2 i)))) (= (msum l1 n) (msum l2 n))) :pattern ((msum l1 n) (msum l2 n)))))
+(assert (forall ((d BSeq) (i Int)) (! (= (lnth (wlist d) i) (warg d i)) :pattern ((lnth (wlist d) i)))))
 ; strings.Split(s, "@") as a function of the string; on a wire-format message it returns the function
 ; name followed by the hex-encoded arguments (Split∘Join = id because neither the name nor hex strings
 ; contain '@'; assumed, true in the standard model)
